@@ -248,3 +248,79 @@ reg(Contract(
     ensures=[("current", _cur_post)], canaries=[("never_continues", lambda c: z3.BoolVal(not c.st.ghost.get("fell_through")))],
     label="proved-per-shape",
 ))
+
+
+# ------------------------------------------------------------------ the load / merge block of setup_config (C06: which file a restart continues from)
+def _merge_block(fnode):
+    ifs = [n for n in fnode.body if isinstance(n, ast.If)]
+    first = [n for n in ifs if ast.unparse(n.test) == "os.path.isfile(inp)"]
+    second = [n for n in ifs if "os.path.isfile(re_inp)" in ast.unparse(n.test)]
+    if len(first) != 1 or len(second) != 1:
+        raise Unsupported("the load / merge statements of setup_config were not found exactly once")
+    mark = ast.parse("__fell_through__()").body[0]
+    ast.copy_location(mark, second[0])
+    ast.fix_missing_locations(mark)
+    return [first[0], second[0], mark]
+
+
+class Handle:
+    def __init__(self, path):
+        self.path = path
+
+    def truth(self, st):
+        return True
+
+
+def _open_toml(ex, st, bound, node):
+    yield st, Handle(bound["file"])
+
+
+def _tomli_load(ex, st, bound, node):
+    h = bound["fp"]
+    g = st.ghost
+    which = "input" if h.path is g["inp"] else ("restart" if h.path is g["re_inp"] else None)
+    if which is None:
+        raise Unsupported("tomli.load of an unexpected file")
+    st.ghost = dict(g, loaded=g.get("loaded", []) + [which])
+    yield st, g["files"][which]
+
+
+def _mg_make(shape):
+    def make(ex, st):
+        inp, re_inp = SStr(fresh("inp", INT)), SStr(fresh("re_inp", INT))
+        keys = ["simulation", "runner", "output"] if shape == 3 else ["simulation"]
+        cfg = {k: fresh("in_" + k, INT) for k in keys}
+        rcfg = {k: fresh("re_" + k, INT) for k in keys}
+        rcfg["current"] = fresh("re_current", INT)
+        st.ghost = dict(st.ghost, inp=inp, re_inp=re_inp, files={"input": cfg, "restart": rcfg}, keys=keys,
+                        eq_sections=z3.And(*[cfg[k] == rcfg[k] for k in keys]))
+        return {"inp": inp, "re_inp": re_inp}
+    return make
+
+
+def _mg_post(ctx):
+    g = ctx.st.ghost
+    inp, re_inp = g["inp"], g["re_inp"]
+    have_in, have_re = ISFILE(inp.term), ISFILE(re_inp.term)
+    fell = bool(g.get("fell_through"))
+    out = [("no_input_file_means_no_run", z3.Implies(z3.Not(have_in), z3.BoolVal(not fell and ctx.result is None))),
+           ("an_existing_input_file_is_loaded_and_the_run_goes_on", z3.Implies(have_in, z3.BoolVal(fell)))]
+    if fell:
+        cfg = ctx.v("config")
+        use_restart = z3.And(inp.term != re_inp.term, have_re, g["eq_sections"])
+        is_re, is_in = cfg is g["files"]["restart"], cfg is g["files"]["input"]
+        out += [("continues_from_the_restart_file_exactly_when_it_exists_and_every_section_of_the_input_is_unchanged", z3.If(use_restart, z3.BoolVal(is_re), z3.BoolVal(is_in))),
+                ("the_restart_file_is_read_only_when_it_is_a_different_existing_file", z3.BoolVal(("restart" in g.get("loaded", []))) == z3.And(inp.term != re_inp.term, have_re))]
+    return out
+
+
+reg(Contract(
+    "setup_config#merge", src=(SETUP_PY, "setup_config"), slice=_merge_block, cases=[Case("three_sections", _mg_make(3)), Case("one_section", _mg_make(1))],
+    ensures=[("merge", _mg_post)], canaries=[("never_uses_the_restart_file", lambda c: z3.BoolVal(c.v("config") is not c.st.ghost["files"]["restart"]) if c.st.ghost.get("fell_through") else None)],
+    overrides={"open": Contract("open", params=["file", "mode"], defaults={"mode": "r"}, custom=_open_toml),
+               "tomli.load": Contract("tomli.load", params=["fp"], custom=_tomli_load),
+               "os.path.isfile": Contract("os.path.isfile", params=["p"], custom=lambda ex, st, b, node: iter([(st, ISFILE(b["p"].term if isinstance(b["p"], SStr) else b["p"]))]))},
+    label="proved-per-shape",
+))
+IMPORTS["open"] = ExtName("open")
+IMPORTS["tomli"] = ExtName("tomli")
